@@ -580,6 +580,7 @@ func checkC19(c *Ctx) {
 	c.ruleRecycle("P.recycle", nil)
 	// repeatable output: nothing is produced in map iteration order, and the padding
 	// handed out is not shared memory that listing signatures writes into
+	c.rulePoolReset("P.reset", nil)
 	c.ruleMapOrder("E.maporder", readOnlyAPI)
 	c.rulePadFresh("E.padshared")
 }
